@@ -448,7 +448,7 @@ func WriteAll(w *os.File, cases []Case) {
 			if c.Kind == "ORACLE" {
 				oracles = strings.Join(c.Fields, ",")
 			}
-			if c.Kind == "EXPECTLINES" || c.Kind == "EXPECTFMT" || c.Kind == "EXPECTSAME" {
+			if c.Kind == "EXPECTLINES" || c.Kind == "EXPECTFMT" || c.Kind == "EXPECTSAME" || c.Kind == "EXPECTMOVES" || c.Kind == "EXPECTMARK" {
 				pending = append(pending, c)
 				continue
 			}
@@ -564,6 +564,78 @@ func CheckExpectation(x Case, res string, c Case) string {
 		}
 		if strings.Join(got, "\n") != strings.Join(want, "\n") {
 			return fmt.Sprintf("commands do not pass through verbatim and in order: emitted %q, written %q", got, want)
+		}
+	case "EXPECTMOVES":
+		// EXPECTMOVES cmd hex(steps of the 1st moves();steps of the 2nd;...): the k-th line "cmd ..., <label>" of the output refers
+		// to a label whose block is exactly the k-th step list (one step per line) followed by step_end
+		if !ok {
+			return "the program is not accepted: " + strings.SplitN(res, "\t", 2)[0]
+		}
+		want := strings.Split(Unhex(x.Fields[1]), ";")
+		k := 0
+		for _, l := range lines {
+			if !strings.HasPrefix(l, "\t"+x.Fields[0]+" ") {
+				continue
+			}
+			if k >= len(want) {
+				return fmt.Sprintf("more %s lines than written", x.Fields[0])
+			}
+			label := strings.TrimSpace(l[strings.LastIndex(l, ",")+1:])
+			var got []string
+			in, found := false, 0
+			for _, m := range lines {
+				if m == label+":" || m == label+"::" {
+					in = true
+					found++
+					continue
+				}
+				if in {
+					if strings.HasPrefix(m, "\t") {
+						got = append(got, m[1:])
+					} else if !strings.HasPrefix(m, "# ") {
+						in = false
+					}
+				}
+			}
+			exp := append(strings.Fields(want[k]), "step_end")
+			if found != 1 {
+				return fmt.Sprintf("movement label %s is defined %d times", label, found)
+			}
+			if strings.Join(got, " ") != strings.Join(exp, " ") {
+				return fmt.Sprintf("moves() number %d was written as %q but its label %s holds %q", k+1, strings.Join(exp, " "), label, strings.Join(got, " "))
+			}
+			k++
+		}
+		if k != len(want) {
+			return fmt.Sprintf("%d %s lines emitted, %d written", k, x.Fields[0], len(want))
+		}
+	case "EXPECTMARK":
+		// EXPECTMARK hex(line<TAB>prefix\n...): the output line that starts with prefix is directly preceded by a marker naming line
+		if !ok {
+			return ""
+		}
+		for _, e := range strings.Split(Unhex(x.Fields[0]), "\n") {
+			f := strings.SplitN(e, "\t", 2)
+			if len(f) != 2 {
+				continue
+			}
+			seen := false
+			for i, l := range lines {
+				if strings.HasPrefix(l, f[1]) {
+					seen = true
+					if i == 0 || !strings.HasPrefix(lines[i-1], "# "+f[0]+" \"") {
+						prev := ""
+						if i > 0 {
+							prev = lines[i-1]
+						}
+						return fmt.Sprintf("%q was written on line %s but is preceded by %q", strings.TrimSpace(f[1]), f[0], prev)
+					}
+					break
+				}
+			}
+			if !seen {
+				return fmt.Sprintf("no output line starts with %q", f[1])
+			}
 		}
 	case "EXPECTFMT":
 		if !ok {
